@@ -98,7 +98,7 @@ func under(base, p string) bool {
 func TestC16(t *testing.T) {
 	world.Quiet()
 	run := rep.New("C16", "exploration",
-		"seeded raw-TCP request targets (dot segments, %2e%2e / %2E%2e / .%2e mixes, ..%2f, //, ;params, encoded slashes and backslashes, double encoding, NUL, unicode, 3 KB segments, absolute-form targets and Host headers naming a decoy listener; one third plain targets, a quarter of them starting like one of Olla's own route prefixes) x endpoints with base path '', '/', '/base/v1' (preserve_path on and off) and '/a/b/c/' x proxy and provider prefixes x both engines; oracle at the backend listeners: arrives on the configured endpoint, decoy never contacted, with preserve_path the dot-segment-resolved path lies under the base path, query byte-equal, plain targets follow the documented construction exactly; health and model-listing requests arrive at base path + configured relative path. distinct = distinct (engine, endpoint, prefix, target)")
+		"seeded raw-TCP request targets (dot segments, %2e%2e / %2E%2e / .%2e mixes, ..%2f, //, ;params, encoded slashes and backslashes, double encoding, NUL, unicode, 3 KB segments, absolute-form targets and Host headers naming a decoy listener; one third plain targets, a quarter of them starting like one of Olla's own route prefixes) x endpoints with base path '', '/', '/base/v1' (preserve_path on and off) and '/a/b/c/' x proxy and provider prefixes x both engines; oracle at the backend listeners: arrives on the configured endpoint, decoy never contacted, with preserve_path the dot-segment-resolved path lies under the base path, query byte-equal, plain targets follow the documented construction exactly; health and model-listing requests arrive at base path + configured relative path, for 6 base-path shapes x 5 spellings of the configured path (rooted, not rooted, nested, ./). distinct = distinct (engine, endpoint, prefix, target)")
 	seed := rep.Seed()
 	for ei, eng := range []string{"sherpa", "olla"} {
 		for di := range defs {
@@ -106,10 +106,75 @@ func TestC16(t *testing.T) {
 			runEngine(run, rand.New(rand.NewSource(seed*17+int64(ei*10+di))), eng, defs[di:di+1])
 		}
 	}
+	probePaths(run)
+	run.Require("probe_path_configurations", 30)
 	run.Require("forwarded_requests_judged", int64(rep.Pick(1200, 30000)))
 	run.Require("preserve_path_hostile_forwarded", int64(rep.Pick(100, 3000)))
 	run.Require("health_and_listing_paths_checked", 10)
 	run.Finish(t)
+}
+
+// probePaths: every spelling of a configured relative health-check / model-listing path
+// (rooted, not rooted, nested) x every shape of endpoint base path; what the backend sees
+// at boot must be base path + "/" + configured path.
+func probePaths(run *rep.Run) {
+	bases := []string{"", "/", "/base/v1", "/a/b/c/", "/engines/llama.cpp", "/v1.2/x"}
+	spell := []string{"/%s", "%s", "sub/%s", "/sub/x/%s", "./%s"}
+	id := 0
+	for _, base := range bases {
+		for hi, hs := range spell {
+			ms := spell[(hi+1+len(base))%len(spell)]
+			id++
+			b := backend.NewStd(fmt.Sprintf("pp%d", id), []string{"m"}, nil)
+			hcfg := fmt.Sprintf(hs, strings.TrimPrefix(backend.StdHealthPath, "/"))
+			mcfg := fmt.Sprintf(ms, strings.TrimPrefix(backend.StdModelsPath, "/"))
+			w, err := world.Start(world.Spec{Engine: "sherpa", Balancer: "priority", Endpoints: []world.Endpoint{{Name: b.Name, URL: b.URL() + base, Type: "ollama", Priority: 100, HealthURL: hcfg, ModelURL: mcfg}}})
+			if err != nil {
+				// a configuration Olla refuses to load cannot send anything anywhere
+				run.Count("probe_path_configurations_rejected", 1)
+				b.Close()
+				continue
+			}
+			want := func(cfg string) string {
+				return strings.TrimRight(base, "/") + "/" + strings.TrimPrefix(strings.TrimPrefix(cfg, "./"), "/")
+			}
+			wantH, wantM := want(hcfg), want(mcfg)
+			var sawH, sawM bool
+			for try := 0; try < 40 && !(sawH && sawM); try++ {
+				for _, r := range b.Records() {
+					if strings.HasSuffix(r.Path, backend.StdHealthPath) {
+						sawH = true
+						if r.Path != wantH {
+							run.Violation("C16/health-path-not-under-base", fmt.Sprintf("base %q, health_check_url %q: health check requested %s, expected %s", base, hcfg, r.Path, wantH), r)
+						}
+					}
+					if strings.HasSuffix(r.Path, backend.StdModelsPath) {
+						sawM = true
+						if r.Path != wantM {
+							run.Violation("C16/listing-path-not-under-base", fmt.Sprintf("base %q, model_url %q: model listing requested %s, expected %s", base, mcfg, r.Path, wantM), r)
+						}
+					}
+				}
+				if !(sawH && sawM) {
+					time.Sleep(50 * time.Millisecond)
+				}
+			}
+			// anything at all outside the base path?
+			for _, r := range b.Records() {
+				if bp := strings.TrimRight(base, "/"); bp != "" && !strings.HasPrefix(r.Path, bp+"/") {
+					run.Violation("C16/probe-outside-base-path", fmt.Sprintf("base %q (health_check_url %q, model_url %q): Olla requested %s", base, hcfg, mcfg, r.Path), r)
+				}
+			}
+			run.Eval(fmt.Sprintf("probe-paths/%s/%s/%s", base, hcfg, mcfg))
+			if sawH && sawM {
+				run.Count("probe_path_configurations", 1)
+			} else {
+				run.Count("probe_path_configurations_without_both_probes", 1)
+			}
+			w.Stop()
+			b.Close()
+		}
+	}
 }
 
 func runEngine(run *rep.Run, rng *rand.Rand, eng string, defs []epDef) {
